@@ -81,7 +81,11 @@ func (f *Frame) call(st *state, c *ssa.CallCommon, ins ssa.Instruction) *Val {
 	var binds []Val
 	if c.IsInvoke() {
 		recv := f.val(c.Value)
-		u.oblige(f, st, "nil", f.ordLabel(ins, "nil"), ins.Pos(), not(eq(recv.S[0], "0")))
+		nilChecked := false
+		if recv.DynT != nil {
+			u.oblige(f, st, "nil", f.ordLabel(ins, "nil"), ins.Pos(), not(eq(recv.S[0], "0")))
+			nilChecked = true
+		}
 		if recv.DynT != nil {
 			ms := u.prog.SSA.MethodSets.MethodSet(recv.DynT)
 			sel := ms.Lookup(c.Method.Pkg(), c.Method.Name())
@@ -89,6 +93,36 @@ func (f *Frame) call(st *state, c *ssa.CallCommon, ins ssa.Instruction) *Val {
 				callee = u.prog.SSA.MethodValue(sel)
 				args = append(args, *recv.DynV)
 			}
+		}
+		if callee == nil {
+			// an "impl" assumption of the contracts names the dynamic type of this interface type
+			if n, ok := types.Unalias(c.Value.Type()).(*types.Named); ok && n.Obj().Pkg() != nil && u.db != nil {
+				key := shortPkg(n.Obj().Pkg().Path()) + "." + n.Obj().Name()
+				if tn, ok := u.db.Impls[key]; ok {
+					if obj := n.Obj().Pkg().Scope().Lookup(strings.TrimPrefix(tn, "*")); obj != nil {
+						var dt types.Type = obj.Type()
+						if strings.HasPrefix(tn, "*") {
+							dt = types.NewPointer(dt)
+						}
+						ms := u.prog.SSA.MethodSets.MethodSet(dt)
+						if sel := ms.Lookup(c.Method.Pkg(), c.Method.Name()); sel != nil && len(leavesOf(dt, "elem")) == 1 {
+							u.trusted["impl:"+key+"="+tn] = true
+							u.ctx.assert("impl", implies(st.reach, eq(recv.S[0], intLit(int64(u.typeID(dt))))))
+							callee = u.prog.SSA.MethodValue(sel)
+							pv := Val{T: dt, S: []string{recv.S[1]}}
+							// the value behind the interface satisfies its type's invariant, like any input
+							if vt := u.validTerm(dt, pv, st, false); vt != "true" {
+								u.ctx.assert("impl", implies(st.reach, vt))
+							}
+							args = append(args, pv)
+						}
+					}
+				}
+			}
+		}
+		if !nilChecked {
+			// (after an "impl" assumption, which fixes the dynamic type and thereby excludes the nil interface)
+			u.oblige(f, st, "nil", f.ordLabel(ins, "nil"), ins.Pos(), not(eq(recv.S[0], "0")))
 		}
 		if callee == nil {
 			return f.abstractCall(st, c, ins, resT, "dynamic dispatch "+c.Method.Name())
@@ -182,7 +216,7 @@ func (f *Frame) callStatic(st *state, callee *ssa.Function, args []Val, binds []
 	if len(callee.Blocks) == 0 {
 		return f.abstractCall(st, nil, ins, resT, "external function "+full)
 	}
-	if !strings.HasPrefix(pkgPathOf(callee), modRoot) {
+	if !strings.HasPrefix(pkgPathOf(callee), modRoot) && pkgPathOf(callee) != "maps" {
 		return f.abstractCall(st, nil, ins, resT, "unmodelled library function "+full)
 	}
 	for _, s := range u.callStack {
@@ -205,6 +239,15 @@ func (f *Frame) callStatic(st *state, callee *ssa.Function, args []Val, binds []
 		chain = fmt.Sprintf("%s[%d]", chain, n)
 	}
 	cf := u.newFrame(callee, chain)
+	if cf.ct != nil {
+		for _, c := range cf.ct.Requires {
+			if c.Kind == "domain" {
+				// the caller need not be inside the callee's functional domain: inline the body without its contract
+				cf.ct = nil
+				break
+			}
+		}
+	}
 	if cf.ct != nil && len(cf.ct.Requires) > 0 {
 		// the callee's preconditions are checked at the call site (and then assumed, as for any obligation)
 		pre := &state{reach: st.reach, mem: st.mem}
